@@ -158,7 +158,11 @@ static void fault_scripts(std::vector<std::vector<JV>>&out){
     JV a = op==0? with_bool(act("add",{{"d",3},{"r",1},{"b",2}}),"o",false) : op==1? with_bool(act("rem",{{"d",3},{"s",1},{"b",2}}),"md",false) : op==2? act("own",{{"s",1}}) : act("norm",{{"s",1},{"m",63}});
     JV n; n.k=JV::NUM; n.n=k; a.o.push_back({"fail",n}); s.push_back(a);
     s.push_back(act("eq",{{"a",1},{"b",2}})); s.push_back(with_bool(act("add",{{"d",4},{"r",2},{"b",2}}),"o",false));
-    out.push_back(s); } }
+    out.push_back(s); }
+  // references that are nothing but "/" (and a query / fragment): the target's path is one fresh empty segment - its request failing
+  for(auto hb:hosts) for(const char*r:{"/","/?q","/#f","/.","/..","//g","?q",""}) for(int k=1;k<=4;++k){ std::vector<JV> s; std::string b=std::string("s:")+hb+"/a/x/y";
+    s.push_back(with_text(act("buf",{{"i",1}}),T(r))); s.push_back(with_text(act("buf",{{"i",2}}),T(b.c_str()))); s.push_back(act("parse",{{"s",1},{"i",1}})); s.push_back(act("parse",{{"s",2},{"i",2}}));
+    JV a=with_bool(act("add",{{"d",3},{"r",1},{"b",2}}),"o",false); JV n; n.k=JV::NUM; n.n=k; a.o.push_back({"fail",n}); s.push_back(a); s.push_back(act("eq",{{"a",3},{"b",2}})); out.push_back(s); } }
 
 // ownership after normalization / make-owner: every kind of authority (user info present, empty, absent x every host kind x port) and every
 // mask that names some components but not others - then the source buffer is overwritten and the URI is read again (C12: after a non-zero
